@@ -32,6 +32,7 @@ type authE2EStats struct {
 	Rejected   int
 	// credentials on the first request of a connection, computed from an earlier connection's challenge
 	StaleDigest, PreemptiveBasic int
+	Replayed                     int // an accepted Authorization header sent again on a request of another method
 }
 
 func RunAuthE2E(c AuthE2ECase) error {
@@ -56,6 +57,8 @@ func runAuthE2E(c AuthE2ECase) (*authE2EStats, error) {
 
 	var r *rawClient
 	var challenge, staleChallenge base.HeaderValue
+	var lastOK base.HeaderValue // Authorization header of the last request this connection accepted
+	lastOKMethod := ""
 	defer func() {
 		if r != nil {
 			r.nc.Close()
@@ -68,6 +71,7 @@ func runAuthE2E(c AuthE2ECase) (*authE2EStats, error) {
 				return st, nil
 			}
 			challenge = nil
+			lastOK = nil
 		}
 		u, _ := base.ParseURL(w.URL("/stream"))
 		req := &base.Request{Method: base.Method(s.Method), URL: u, Header: base.Header{}}
@@ -91,7 +95,21 @@ func runAuthE2E(c AuthE2ECase) (*authE2EStats, error) {
 				creds = "none" // credentials can only be computed once the server has issued a challenge on this connection
 			}
 		}
-		if creds != "none" {
+		replayed := false
+		if creds == "replay" {
+			creds = "right"
+			if lastOK != nil && lastOKMethod != s.Method && challenge != nil {
+				// the very header an earlier request of this connection was accepted with, on a request it was not computed
+				// for (Digest binds the method; Basic does not)
+				req.Header["Authorization"] = lastOK
+				replayed = true
+				st.Replayed++
+				if !strings.HasPrefix(lastOK[0], "Basic ") {
+					creds = "other-method"
+				}
+			}
+		}
+		if creds != "none" && !replayed {
 			user, pass := c.User, c.Pass
 			switch creds {
 			case "wrong-pass":
@@ -168,6 +186,9 @@ func runAuthE2E(c AuthE2ECase) (*authE2EStats, error) {
 				return st, fmt.Errorf("step %d: %s with the right credentials for user %q password %q (methods %v) was answered 401", i, s.Method, c.User, c.Pass, c.Methods)
 			}
 			st.Accepted++
+			if v := req.Header["Authorization"]; len(v) == 1 && s.Method != "OPTIONS" {
+				lastOK, lastOKMethod = v, s.Method
+			}
 			if (s.Method == "ANNOUNCE" || s.Method == "SETUP") && res.StatusCode == base.StatusOK {
 				// the request created a session; a connection serves one session, so the conversation goes on elsewhere
 				r.nc.Close()
